@@ -7,7 +7,9 @@ import (
 	"context"
 	"encoding/binary"
 	"errors"
+	"fmt"
 	"io"
+	"strings"
 	"sync"
 	"time"
 
@@ -130,7 +132,7 @@ func (d *Daemon) Done() Report {
 }
 
 // ContainerList implements client.APIClient.
-func (d *Daemon) ContainerList(_ context.Context, _ container.ListOptions) ([]types.Container, error) {
+func (d *Daemon) ContainerList(_ context.Context, opts container.ListOptions) ([]types.Container, error) {
 	d.mu.Lock()
 	defer d.mu.Unlock()
 	wave := d.listCalls
@@ -145,9 +147,38 @@ func (d *Daemon) ContainerList(_ context.Context, _ container.ListOptions) ([]ty
 	} else {
 		d.wave = -1
 	}
-	out := make([]types.Container, len(d.Containers))
-	for i, c := range d.Containers {
-		out[i] = c.Summary
+	// List filters are honoured the way the daemon does (daemon/list.go): id and name match
+	// exactly or as an unanchored regular expression, label takes key or key=value, status is
+	// exact; an unknown filter is an error.
+	for _, k := range opts.Filters.Keys() {
+		switch k {
+		case "id", "name", "label", "status", "ancestor":
+		default:
+			return nil, fmt.Errorf("invalid filter '%s'", k)
+		}
+	}
+	out := make([]types.Container, 0, len(d.Containers))
+	for _, c := range d.Containers {
+		s := c.Summary
+		if !opts.Filters.Match("id", s.ID) {
+			continue
+		}
+		if opts.Filters.Contains("name") {
+			ok := false
+			for _, n := range s.Names {
+				ok = ok || opts.Filters.Match("name", strings.TrimPrefix(n, "/"))
+			}
+			if !ok {
+				continue
+			}
+		}
+		if !opts.Filters.MatchKVList("label", s.Labels) || !opts.Filters.ExactMatch("status", s.State) {
+			continue
+		}
+		if opts.Filters.Contains("ancestor") && !opts.Filters.ExactMatch("ancestor", s.Image) && !opts.Filters.ExactMatch("ancestor", s.ImageID) {
+			continue
+		}
+		out = append(out, s)
 	}
 	return out, nil
 }
